@@ -68,7 +68,8 @@ CFG = {
                       "dense_setlength_counters", "dense_set_counters", "dense_define_counters",
                       "sparse_delete_counters", "sparse_setlength_counters", "sparse_set_counters", "sparse_define_counters",
                       "counters_history", "init_exact", "export_refines", "push_refines", "pop_refines", "shift_refines",
-                      "unshift_refines", "splice_refines", "slice_refines", "transition_invisible",
+                      "unshift_refines", "splice_refines", "slice_refines", "splice_fastpath_proto_refuted",
+                      "transition_invisible",
                       "setlength_nonconfigurable_tail", "check_sort_sound", "check_sort_array_sound"],
     "allowed_axioms": [],
     "trusted_base": [
@@ -85,7 +86,7 @@ CFG = {
         "a divergence from S is attributed to a recorded finding only when the faithful model I reproduces the observation "
         "through the diverging op and that op lies in that finding's region (tags computed inside Coq)",
     ],
-    "predicates": {},     # no open finding: every divergence from S is a violation
+    "predicates": {"C07.tag13_splice_fastpath_ignores_prototype": _tag(13, r"OSplice")},
     "manifest": {
         "text": ("proof: the Array exotic object (ArraySetLength, index [[DefineOwnProperty]], [[Set]], delete, get/has with holes) is "
                  "modelled as spec S over a finite map; goja's dense (values[]+counters) and sparse (sorted items[]) storages, both "
